@@ -9,6 +9,7 @@ pub mod batch;
 pub mod codec;
 pub mod egress;
 pub mod engine;
+pub mod hwm;
 pub mod ingress;
 pub mod ingress_driver;
 pub mod reqrep;
@@ -17,3 +18,4 @@ pub mod rpq;
 pub mod sec;
 pub mod shutdown;
 pub mod trie;
+pub mod uring;
